@@ -46,7 +46,8 @@ pub fn post_request_v(kind: Kind, explicit_te: bool, ver10: bool, variant: usize
         Kind::Sized(_) => {}
         Kind::Chunked => {
             if explicit_te {
-                b = b.header("transfer-encoding", "chunked")
+                // the coding name is case-insensitive
+                b = b.header("transfer-encoding", ["chunked", "Chunked", "chunked", "CHUNKED", "chunKed"][variant % 5])
             }
         }
     }
